@@ -235,4 +235,229 @@ theorem bi_miss (call : CallFn N) (ρ : ExtOracle N) (k : Nat) (L : Layout) (mod
         · simp only [afterMiss]
           rw [getTable_rawSet_mt, getTable_setCell, getTable_rawSet_mt]; exact sl.2.2.1
 
+theorem listSet_append_last {α : Type} (xs : List α) (a b : α) : listSet (xs ++ [a]) xs.length b = xs ++ [b] := by
+  induction xs with
+  | nil => rfl
+  | cons x xs ih => simp [listSet, ih]
+
+theorem afterDefinition_closures (M name : String) (body : Block) (locals : List (String × Nat)) (tM : Nat) (σ : State N) :
+    (afterDefinition M name body locals tM σ).closures
+      = σ.closures ++ [implClosure body ((implName, σ.cells.length) :: locals),
+                        accClosure M name ((implName, σ.cells.length) :: locals)] := by
+  simp [afterDefinition, State.allocCell, State.allocClosure, State.setCell, State.rawSet, State.setTable,
+    implClosure, accClosure]
+
+theorem afterDefinition_cells (M name : String) (body : Block) (locals : List (String × Nat)) (tM : Nat) (σ : State N) :
+    (afterDefinition M name body locals tM σ).cells = σ.cells ++ [.fn σ.closures.length] := by
+  simp [afterDefinition, State.allocCell, State.allocClosure, State.setCell, State.rawSet, State.setTable,
+    listSet_append_last]
+
+/-- as far as tables are concerned a definition is one `rawSet` on the modules table -/
+theorem afterDefinition_tables (M name : String) (body : Block) (locals : List (String × Nat)) (tM : Nat) (σ : State N) :
+    (afterDefinition M name body locals tM σ).tables
+      = (σ.rawSet tM (strVal name) (.fn (σ.closures.length + 1))).tables := by
+  simp [afterDefinition, State.allocCell, State.allocClosure, State.setCell, State.rawSet, State.setTable,
+    State.getTable]
+
+theorem rawGet_of_tables {σ σ' : State N} (h : σ.tables = σ'.tables) (t : Nat) (k : Val N) :
+    σ.rawGet t k = σ'.rawGet t k := by simp [State.rawGet, State.getTable, h]
+theorem getTable_of_tables {σ σ' : State N} (h : σ.tables = σ'.tables) (t : Nat) :
+    σ.getTable t = σ'.getTable t := by simp [State.getTable, h]
+
+
+def bytesOf (s : String) : List UInt8 := s.toUTF8.toList
+
+/-- invariant of executing the module definitions one after the other -/
+structure Pre (L : Layout) (done : List ModInfo) (todo : List (String × Block)) (σ : State N) : Prop where
+  infra : Infra L σ
+  plainM : (σ.getTable L.tM).mt = none
+  ready : ∀ m ∈ done, ModReady L m σ
+  slotsDone : ∀ m ∈ done, σ.rawGet L.tC (strVal m.name) = .nil
+  freeField : ∀ nb ∈ todo, σ.rawGet L.tM (strVal nb.1) = .nil
+  freeSlot : ∀ nb ∈ todo, σ.rawGet L.tC (strVal nb.1) = .nil
+
+theorem getCell_append_left (σ σ' : State N) (extra : List (Val N)) (h : σ'.cells = σ.cells ++ extra) (i : Nat)
+    (x : Val N) (hx : σ.getCell i = x) (hn : x ≠ .nil) : σ'.getCell i = x := by
+  have hi := getCell_ne_nil_lt σ i x hx hn
+  simp only [State.getCell] at hx ⊢
+  rw [h, List.getElem?_append_left hi]; exact hx
+
+theorem closures_append_left (σ σ' : State N) (extra : List (Closure N)) (h : σ'.closures = σ.closures ++ extra)
+    (i : Nat) (c : Closure N) (hc : σ.closures[i]? = some c) : σ'.closures[i]? = some c := by
+  have hi : i < σ.closures.length := by
+    by_cases hi : i < σ.closures.length
+    · exact hi
+    · have : σ.closures[i]? = none := by simp; omega
+      rw [this] at hc; cases hc
+  rw [h, List.getElem?_append_left hi]; exact hc
+
+theorem defs_exec (call : CallFn N) (ρ : ExtOracle N) (k : Nat) (L : Layout) (va : List (Val N)) :
+    ∀ (todo : List (String × Block)) (done : List ModInfo) (σ : State N),
+      Pre L done todo σ →
+      ((done.map fun m => bytesOf m.name) ++ (todo.map fun nb => bytesOf nb.1)).Nodup →
+      (∀ nb ∈ todo, bytesOf nb.1 ≠ bytesOf "cache") →
+      ∃ (infos : List ModInfo) (σ' : State N),
+        infos.map (fun m => (m.name, m.body)) = todo ∧
+        execSs call ρ (k + 1) ⟨L.locals0, va⟩ (todo.map fun nb => moduleDefinition L.M nb.1 nb.2) σ
+          = .ok (.next ⟨L.locals0, va⟩) σ' ∧
+        Pre L (done ++ infos) [] σ' := by
+  intro todo
+  induction todo with
+  | nil =>
+    intro done σ hpre _ _
+    exact ⟨[], σ, rfl, by simp [execSs], by simpa using hpre⟩
+  | cons nb rest ih =>
+    intro done σ hpre hnodup hcache
+    obtain ⟨name, body⟩ := nb
+    have hfield := hpre.freeField (name, body) List.mem_cons_self
+    have hslot := hpre.freeSlot (name, body) List.mem_cons_self
+    have hex := exec_moduleDefinition call ρ k ⟨L.locals0, va⟩ L.M name body L.cM L.tM σ hpre.infra.hMI hpre.infra.hM
+      hpre.infra.cellM hfield hpre.plainM
+    let σ1 := afterDefinition L.M name body L.locals0 L.tM σ
+    let m : ModInfo := ⟨name, body, σ.cells.length, σ.closures.length, σ.closures.length + 1⟩
+    have hcl := afterDefinition_closures L.M name body L.locals0 L.tM σ
+    have hce := afterDefinition_cells L.M name body L.locals0 L.tM σ
+    have hta := afterDefinition_tables L.M name body L.locals0 L.tM σ
+    have htMlt : L.tM < σ.tables.length := rawGet_ne_nil_lt σ L.tM _ _ hpre.infra.cache (by simp)
+    have hneC : L.tM ≠ L.tC := Ne.symm hpre.infra.neC
+    -- lookups after the definition
+    have hgetC : ∀ key, σ1.rawGet L.tC key = σ.rawGet L.tC key := by
+      intro key
+      rw [rawGet_of_tables hta, rawGet_rawSet_ne_table _ _ _ _ _ _ hneC]
+    have hgetM : ∀ b, bytesOf name ≠ b → σ1.rawGet L.tM (.str b) = σ.rawGet L.tM (.str b) := by
+      intro b hb
+      rw [rawGet_of_tables hta]
+      exact rawGet_rawSet_other_key σ L.tM _ _ hb _ (by simp)
+    have hmt : ∀ t, (σ1.getTable t).mt = (σ.getTable t).mt := by
+      intro t
+      rw [getTable_of_tables hta, getTable_rawSet_mt]
+    have hlen : σ1.tables.length = σ.tables.length := by
+      show (afterDefinition L.M name body L.locals0 L.tM σ).tables.length = _
+      rw [hta, tables_length_rawSet]
+    have hnd := hnodup
+    simp only [List.map_cons, List.nodup_append, List.nodup_cons, List.mem_cons, List.mem_map] at hnd
+    have hname_done : ∀ m' ∈ done, bytesOf name ≠ bytesOf m'.name := by
+      intro m' hm' e
+      exact hnd.2.2 (bytesOf m'.name) ⟨m', hm', rfl⟩ (bytesOf name) (Or.inl rfl) e.symm
+    have hname_rest : ∀ nb' ∈ rest, bytesOf name ≠ bytesOf nb'.1 := by
+      intro nb' hnb' e
+      exact hnd.2.1.1 ⟨nb', hnb', e.symm⟩
+    have hpre1 : Pre L (done ++ [m]) rest σ1 := by
+      refine ⟨⟨hpre.infra.hMv, hpre.infra.hMI, hpre.infra.hM, ?_, ?_, ?_, ?_, hpre.infra.neC⟩, ?_, ?_, ?_, ?_, ?_⟩
+      · exact getCell_append_left σ σ1 _ hce _ _ hpre.infra.cellM (by simp)
+      · have := hgetM (bytesOf "cache") (hcache (name, body) List.mem_cons_self)
+        simp only [strVal, bytesOf] at this ⊢
+        rw [this]; exact hpre.infra.cache
+      · rw [hmt]; exact hpre.infra.plainC
+      · rw [hlen]; exact hpre.infra.ltC
+      · rw [hmt]; exact hpre.plainM
+      · intro m' hm'
+        rcases List.mem_append.mp hm' with hm' | hm'
+        · have r := hpre.ready m' hm'
+          refine ⟨?_, closures_append_left σ σ1 _ hcl _ _ r.acc, getCell_append_left σ σ1 _ hce _ _ r.cell (by simp),
+            closures_append_left σ σ1 _ hcl _ _ r.impl⟩
+          have := hgetM (bytesOf m'.name) (hname_done m' hm')
+          simp only [strVal, bytesOf] at this ⊢
+          rw [this]; exact r.field
+        · have : m' = m := by simpa using hm'
+          subst this
+          refine ⟨?_, ?_, ?_, ?_⟩
+          · show σ1.rawGet L.tM (strVal name) = .fn (σ.closures.length + 1)
+            rw [rawGet_of_tables hta]
+            unfold State.rawGet State.rawSet
+            rw [getTable_setTable_same _ _ _ htMlt]
+            exact rawGetEntries_rawSetEntries_same _ _ (by simp) _
+          · show (afterDefinition L.M name body L.locals0 L.tM σ).closures[σ.closures.length + 1]? = _
+            rw [hcl]; simp [ModInfo.locals]; rfl
+          · show (afterDefinition L.M name body L.locals0 L.tM σ).getCell σ.cells.length = _
+            simp [State.getCell, hce]; rfl
+          · show (afterDefinition L.M name body L.locals0 L.tM σ).closures[σ.closures.length]? = _
+            rw [hcl]; simp [ModInfo.locals]; rfl
+      · intro m' hm'
+        rw [hgetC]
+        rcases List.mem_append.mp hm' with hm' | hm'
+        · exact hpre.slotsDone m' hm'
+        · have : m' = m := by simpa using hm'
+          subst this; exact hslot
+      · intro nb' hnb'
+        have := hgetM (bytesOf nb'.1) (hname_rest nb' hnb')
+        simp only [strVal, bytesOf] at this ⊢
+        rw [this]; exact hpre.freeField nb' (List.mem_cons_of_mem _ hnb')
+      · intro nb' hnb'
+        rw [hgetC]; exact hpre.freeSlot nb' (List.mem_cons_of_mem _ hnb')
+    have hnodup1 : (((done ++ [m]).map fun m => bytesOf m.name) ++ (rest.map fun nb => bytesOf nb.1)).Nodup := by
+      simpa [List.map_append, List.append_assoc] using hnodup
+    obtain ⟨infos, σ', hmap, hexec, hpre'⟩ := ih (done ++ [m]) σ1 hpre1 hnodup1
+      (fun nb' hnb' => hcache nb' (List.mem_cons_of_mem _ hnb'))
+    refine ⟨m :: infos, σ', by simp [hmap]; exact ⟨rfl, rfl⟩, ?_, by simpa [List.append_assoc] using hpre'⟩
+    simp only [List.map_cons, execSs, hex, Res.bind]
+    exact hexec
+
+theorem exec_do_block (call : CallFn N) (ρ : ExtOracle N) (k : Nat) (env env1 : Env N) (ss : List Stmt) (σ σ1 : State N)
+    (h : execSs call ρ k env ss σ = .ok (.next env1) σ1) :
+    execS call ρ k env (.doBlock (.mk ss none)) σ = .ok (.next env) σ1 := by
+  simp [execS, execB, h, Res.bind]
+
+/-- the layout the prelude creates when executed in state `σ` and environment `env` -/
+def layoutOf (M : String) (env : Env N) (σ : State N) : Layout :=
+  ⟨M, (M, σ.cells.length) :: env.locals, σ.cells.length, σ.tables.length, σ.tables.length + 1⟩
+
+/-- **The prelude for any number of modules.** Executing the statements `apply` inserts (modules
+table, then one definition per module) only adds `M` to the scope and establishes the bundle
+invariant with every module defined and none loaded. -/
+theorem prelude_establishes (call : CallFn N) (ρ : ExtOracle N) (k : Nat) (env : Env N) (M : String)
+    (mods : List (String × Block)) (σ : State N)
+    (hne : mods ≠ []) (hMv : M ≠ "v") (hMI : M ≠ implName)
+    (hnodup : (mods.map fun nb => bytesOf nb.1).Nodup)
+    (hcache : ∀ nb ∈ mods, bytesOf nb.1 ≠ bytesOf "cache") :
+    ∃ (infos : List ModInfo) (σ' : State N),
+      infos.map (fun m => (m.name, m.body)) = mods ∧
+      execSs call ρ (k + 1) env (prelude M mods) σ
+        = .ok (.next ⟨(M, σ.cells.length) :: env.locals, env.varargs⟩) σ' ∧
+      BI (layoutOf M env σ) infos (fun _ => none) σ' := by
+  have hcell : (afterTable σ).getCell σ.cells.length = .tbl σ.tables.length := by
+    simp [afterTable, State.getCell, State.allocCell, State.rawSet, State.setTable, State.allocTable]
+  have hT : (afterTable σ).getTable σ.tables.length
+      = { entries := [(strVal "cache", .tbl (σ.tables.length + 1))], mt := none } := by
+    simp [afterTable, State.getTable, State.allocCell, State.rawSet, State.setTable, State.allocTable,
+      listSet_get_same, rawSetEntries]
+  have hTC : (afterTable σ).getTable (σ.tables.length + 1) = { entries := [], mt := none } := by
+    simp [afterTable, State.getTable, State.allocCell, State.rawSet, State.setTable, State.allocTable,
+      listSet_get_ne]
+  have hlen : (afterTable σ).tables.length = σ.tables.length + 2 := by
+    simp [afterTable, State.allocCell, State.rawSet, State.setTable, State.allocTable, listSet_length]
+  have hpre : Pre (layoutOf M env σ) [] mods (afterTable σ) := by
+    refine ⟨⟨hMv, hMI, by simp [layoutOf, lookupAssoc], hcell, ?_, ?_, ?_, ?_⟩, ?_, ?_, ?_, ?_, ?_⟩
+    · simp [layoutOf, State.rawGet, hT, rawGetEntries, rawEq, strVal]
+    · simp [layoutOf, hTC]
+    · simp [layoutOf, hlen]
+    · simp [layoutOf]
+    · simp [layoutOf, hT]
+    · intro m hm; cases hm
+    · intro m hm; cases hm
+    · intro nb hnb
+      have hne' : ¬ "cache".toUTF8.toList = nb.1.toUTF8.toList := fun h => hcache nb hnb h.symm
+      simp [layoutOf, State.rawGet, hT, rawGetEntries, rawEq, strVal]
+      exact hne'
+    · intro nb _
+      simp [layoutOf, State.rawGet, hTC, rawGetEntries]
+  obtain ⟨infos, σ', hmap, hexec, hpre'⟩ := defs_exec call ρ k (layoutOf M env σ) env.varargs mods [] (afterTable σ)
+    hpre (by simpa using hnodup) hcache
+  refine ⟨infos, σ', hmap, ?_, ⟨hpre'.infra, ?_, ?_⟩⟩
+  · have hdo := exec_do_block call ρ (k + 1) _ _ _ _ _ hexec
+    cases mods with
+    | nil => exact absurd rfl hne
+    | cons nb rest =>
+      simp only [prelude, execSs, exec_modulesTable, Res.bind]
+      have : (List.map (fun x => match x with | (n, b) => moduleDefinition M n b) (nb :: rest))
+          = (List.map (fun nb => moduleDefinition (layoutOf M env σ).M nb.1 nb.2) (nb :: rest)) := by
+        apply List.map_congr_left
+        intro x _; obtain ⟨n, b⟩ := x; rfl
+      rw [this]
+      have hdo' : execS call ρ (k + 1) ⟨(M, σ.cells.length) :: env.locals, env.varargs⟩ _ (afterTable σ) = _ := hdo
+      rw [hdo']
+      rfl
+  · intro m hm; exact hpre'.ready m (by simpa using hm)
+  · intro m hm; exact hpre'.slotsDone m (by simpa using hm)
+
 end DarkluaModel.C05
